@@ -227,24 +227,33 @@ def _filters_from_edges(ctx: Ctx, fi: FuncInfo, edges, depth: int = 0) -> dict[s
 
 
 def _helper_filters(ctx: Ctx, callee: FuncInfo, want: bool, depth: int) -> dict[str, bool]:
-    """Filters (kind -> matched) known on every path of `callee` that returns the constant `want`."""
+    """Filters (kind -> matched) known on every path of `callee` on which it answers `want`: a `return <want>` constant, or a
+    `return <expression>` (then the expression is `want` too, which fixes the polarity of its conjuncts). Paths that
+    return the opposite constant do not count."""
     flow = ctx.prog.flow(callee)
-    rets = [r for r in flow.cfg.returns() if isinstance(r.ast.value, ast.Constant) and r.ast.value.value is want]
-    other = [r for r in flow.cfg.returns() if not (isinstance(r.ast.value, ast.Constant) and isinstance(r.ast.value.value, bool))]
-    if not rets or other:
-        # `return a and not b`-style helpers: classify by what is consulted, polarity taken from the expression
-        out: dict[str, bool] = {}
-        for r in flow.cfg.returns():
-            if r.ast.value is not None:
-                for part, truth in _conjuncts(r.ast.value, "T" if want else "F"):
-                    neg = isinstance(part, ast.UnaryOp) and isinstance(part.op, ast.Not)
-                    for k in filter_kinds(ctx, callee, part, r):
-                        out[k] = truth != neg
-        return out
+    accepting: list[tuple[Node, ast.AST | None]] = []
+    for r in flow.cfg.returns():
+        v = r.ast.value
+        if isinstance(v, ast.Constant) and isinstance(v.value, bool):
+            if v.value is want:
+                accepting.append((r, None))
+        elif v is not None:
+            accepting.append((r, v))
+    if not accepting:
+        return {}
     result: dict[str, bool] | None = None
     doms = flow.cfg.dominators()
-    for r in rets:
+    for r, expr in accepting:
         f = _filters_from_edges(ctx, callee, must_edges(flow.cfg, flow.cfg.entry, r) or set(), depth)
+        if expr is not None:
+            for part, truth in _conjuncts(expr, "T" if want else "F"):
+                h = _helper_call(ctx, callee, part) if depth < 3 else None
+                if h is not None:
+                    f.update(_helper_filters(ctx, h[0], truth != h[1], depth + 1))
+                    continue
+                neg = isinstance(part, ast.UnaryOp) and isinstance(part.op, ast.Not)
+                for k in filter_kinds(ctx, callee, part, r):
+                    f[k] = truth != neg
         # rejecting loops that every path to this return runs through: `for x in xs: if match(x): return <not want>`
         for h in doms.get(r, set()):
             if h.kind != "for":
@@ -552,20 +561,28 @@ def check_gitignore(ctx: Ctx) -> None:
     walk = _method(ctx, "_walk_directory")
     dire = _method(ctx, "_is_dir_excluded")
     sites = []
-    for fi in (walk, dire):
+    from .. import anchors as _anchors
+
+    # the two matcher sites, or the private predicates of the resolver they were moved into (per-file tests are often
+    # extracted from the walk)
+    file_side = [walk] + [f for f in _anchors._callees(ctx, walk, 2) if _is_resolver_helper(f) and f is not dire
+                          and dire not in [f] and f.qual not in {g.qual for g in _anchors._callees(ctx, dire, 2)}]
+    for fi in file_side + [dire]:
         flow = prog.flow(fi)
         for n, c in flow.all_calls():
             if isinstance(c.func, ast.Attribute) and c.func.attr in ("match_file", "check_file"):
                 recv = _effective_receiver(c)
                 sl = prog.slice(fi, recv, n)
-                if "gitignore" in _loader_kinds(ctx, sl.callees()) or "gitignore" in {_attr_kind(ctx, a) for a in sl.attrs()}:
+                probe = ast.Call(func=ast.Attribute(value=recv, attr="match_file", ctx=ast.Load()), args=[], keywords=[])
+                if "gitignore" in _loader_kinds(ctx, sl.callees()) or "gitignore" in {_attr_kind(ctx, a) for a in sl.attrs()} \
+                        or "gitignore" in filter_kinds(ctx, fi, probe, n):
                     sites.append((fi, n, c))
     ctx.require("R-GITIGNORE", "gitignore matcher sites", len(sites), 1)
     for fi, n, c in sites:
         flow = prog.flow(fi)
-        tag = "files" if fi is walk else "directories"
+        tag = "files" if fi is not dire else "directories"
         # (the two sites are named by their role: the names of the private methods that hold them are free to change)
-        site = f"{RESOLVER} [{'directory walk' if fi is walk else 'directory pruning'}]"
+        site = f"{RESOLVER} [{'directory walk' if fi is not dire else 'directory pruning'}]"
         # G1 every use depends on respect_gitignore
         recv = _effective_receiver(c)
         sl = prog.slice(fi, recv, n, control=True)
@@ -615,12 +632,20 @@ def check_gitignore(ctx: Ctx) -> None:
                 facs.append((f, c))
     ctx.require("R-GITIGNORE", "PathSpec.from_lines call sites", len(facs), 1)
     for f, c in facs:
-        a0 = c.args[0] if c.args else None
+        a0 = c.args[0] if c.args else next((k.value for k in c.keywords if k.arg == "pattern_factory"), None)
+        if isinstance(a0, ast.Name):
+            from ..loader import ConstInfo
+
+            r0 = repo.lookup(a0.id, f.module, f)
+            if isinstance(r0, ConstInfo) and isinstance(r0.value, ast.Constant):
+                a0 = r0.value  # a named module constant holding the syntax name
         ok = isinstance(a0, ast.Constant) and a0.value in ("gitignore", "gitwildmatch")
         ctx.ob("R-GITIGNORE-G4", f"{f.qual} :: {norm(c)[:60]}", ok, "ignore patterns must be compiled with pathspec's gitignore syntax", where(f, c))
         # G5 gitignore rules are order-sensitive (the last matching line wins, negations in between matter): the lines must
         # reach the compiler in file order and with their repetitions
         lines_arg = c.args[1] if len(c.args) > 1 else next((k.value for k in c.keywords if k.arg == "lines"), None)
+        if lines_arg is None and len(c.args) == 1 and not any(k.arg == "pattern_factory" for k in c.keywords):
+            lines_arg = None
         node = prog.flow(f).node_of(c)
         if lines_arg is not None and node is not None:
             sl = prog.slice(f, lines_arg, node)
